@@ -118,7 +118,12 @@ DispatchCases == <<
   [prog |-> <<"call", "sum", <<<<"lit", VInt(4)>>>>>>, ctx |-> <<>>, gfun |-> ("sum" :> "h7")],                            \* built-in replaced globally
   [prog |-> <<"stmt", <<<<"call", "d7", <<>>>>, <<"ref", "d7">>, <<"call", "d8", <<<<"call", "d7", <<>>>>>>>>>>>>, ctx |-> ("d7" :> <<"fn", "h8">>), gfun |-> ("d8" :> "h9") @@ ("d7" :> "h10")],
   [prog |-> <<"bin", "=", <<"ref", "d9">>, <<"call", "d9", <<>>>>>>, ctx |-> ("d9" :> <<"fn", "h11">>), gfun |-> ("d9" :> "h12")],  \* after x = x(): x is a variable, the global is called
-  [prog |-> <<"stmt", <<<<"bin", "=", <<"ref", "d10">>, <<"lit", VInt(1)>>>>, <<"call", "d10", <<>>>>>>>>, ctx |-> ("d10" :> <<"fn", "h13">>), gfun |-> ("d10" :> "h14")] >>
+  [prog |-> <<"stmt", <<<<"bin", "=", <<"ref", "d10">>, <<"lit", VInt(1)>>>>, <<"call", "d10", <<>>>>>>>>, ctx |-> ("d10" :> <<"fn", "h13">>), gfun |-> ("d10" :> "h14")],
+  \* the same names with and without a shadowing context: what an earlier evaluation resolved must not leak into a later one (C16)
+  [prog |-> <<"call", "d11", <<>>>>, ctx |-> <<>>, gfun |-> ("d11" :> "h15")],
+  [prog |-> <<"call", "d11", <<>>>>, ctx |-> ("d11" :> <<"fn", "h16">>), gfun |-> ("d11" :> "h15")],
+  [prog |-> <<"call", "max", <<<<"lit", VInt(4)>>, <<"lit", VInt(6)>>>>>>, ctx |-> <<>>, gfun |-> <<>>],
+  [prog |-> <<"list", <<<<"call", "d11", <<>>>>, <<"call", "max", <<<<"lit", VInt(1)>>>>>>>>>>, ctx |-> ("max" :> <<"fn", "h6">>), gfun |-> ("d11" :> "h15")] >>
 DispatchEnv(c, fault) == [handlers |-> [h \in {HID[i] : i \in 1..16} |-> [ret |-> VStr(<<104, LeafIdx(h) + 64>>), act |-> "lockctx"]],
                           gfun |-> c.gfun, gprefix |-> <<>>, gpostfix |-> <<>>, ginfix |-> <<>>, fault |-> fault]
 DispatchInit == \E k \in 1..Len(DispatchCases), fault \in {NoFault, <<1, "err">>} : Start(DispatchEnv(DispatchCases[k], fault), DispatchCases[k].prog, DispatchCases[k].ctx)
